@@ -116,45 +116,79 @@ def setAll {σ : Type} : List (Nat × σ) → List σ → List σ
   | [], vals => vals
   | (i, x) :: rest, vals => setAll rest (vals.set i x)
 
-/-- positions paired with their elements -/
-def enum {α : Type} (l : List α) : List (Nat × α) := (List.range l.length).zip l
+/-- positions paired with their elements (`for i, x := range l`) -/
+def enum {α : Type} (l : List α) : List (Nat × α) := l.zipIdx.map fun (x, i) => (i, x)
 
-/-! ## `doCacheMGet` -/
+/-! ## classification of one batch -/
 
-/-- how `p.cache.Flight(key, mgetcc, ttl, now)` classified one key -/
-inductive MCls
-  | hit (v : Msg)                                   -- `v.typ != 0`
-  | pending (v : Option Msg) (err : Option Err)     -- `entry != nil`; what `entry.Wait(ctx)` will return
+/-- how `Flight` / `Flights` classified one position -/
+inductive Cls
+  | hit (v : Msg)         -- `v.typ != 0`
+  | pending (w : Res)     -- `entry != nil`; `w` is what `entry.Wait(ctx)` will return
   | miss
 deriving DecidableEq, Repr
 
-def MCls.isMiss : MCls → Bool
+def Cls.isMiss : Cls → Bool
   | .miss => true
   | _ => false
 
-/-- `result.val.values()` before the waits: hits in place, everything else zero -/
-def mBase : MCls → Option Msg
+/-- the `entries.e` map: position ↦ waiter result -/
+def entries (cls : List Cls) : List (Nat × Res) :=
+  (enum cls).filterMap fun
+    | (i, .pending w) => some (i, w)
+    | _ => none
+
+/-- state of one cache key at `now` (an expired entry counts as `absent`) -/
+inductive Ent
+  | cached (v : Msg)
+  | inflight (w : Res)   -- what the flight already under way will resolve to
+  | absent
+deriving DecidableEq, Repr
+
+/-- Sequential `Flight` over the keys of one batch (also the net effect of `Flights`: its second pass
+    re-examines the missed positions in order under the write lock).  `seen` are the keys for which
+    THIS batch already created a flight; `own k` is what that flight resolves to.  `closed`:
+    `c.store == nil`, every lookup is told to send and nothing is recorded. -/
+def classify {K : Type} [DecidableEq K] (closed : Bool) (own : K → Res) (st : K → Ent) :
+    List K → List K → List Cls
+  | _, [] => []
+  | seen, k :: ks =>
+    if closed then .miss :: classify closed own st seen ks
+    else if k ∈ seen then .pending (own k) :: classify closed own st seen ks
+    else match st k with
+      | .cached v => .hit v :: classify closed own st seen ks
+      | .inflight w => .pending w :: classify closed own st seen ks
+      | .absent => .miss :: classify closed own st (k :: seen) ks
+
+/-- the keys this batch has to fetch, in order (`rewrite.Args(key)` / `missed`) -/
+def missKeys {K : Type} [DecidableEq K] (closed : Bool) (st : K → Ent) : List K → List K → List K
+  | _, [] => []
+  | seen, k :: ks =>
+    if closed then k :: missKeys closed st seen ks
+    else if k ∈ seen then missKeys closed st seen ks
+    else match st k with
+      | .absent => k :: missKeys closed st (k :: seen) ks
+      | _ => missKeys closed st seen ks
+
+/-! ## `doCacheMGet` -/
+
+/-- `result.val.values()` before the waits: hits in place, everything else the zero message -/
+def mBase : Cls → Option Msg
   | .hit v => some v
   | _ => none
 
-/-- the `entries.e` map: position ↦ waiter result -/
-def mEntries (cls : List MCls) : List (Nat × Option Msg × Option Err) :=
-  (enum cls).filterMap fun
-    | (i, .pending v e) => some (i, v, e)
-    | _ => none
-
 /-- `for i, entry := range entries.e { v, err := entry.Wait(ctx); if err != nil { return err }; vals[i] = v }` -/
-def waitAll : List (Nat × Option Msg × Option Err) → List (Option Msg) → Except Err (List (Option Msg))
+def waitAll : List (Nat × Res) → List (Option Msg) → Except Err (List (Option Msg))
   | [], vals => .ok vals
-  | (_, _, some e) :: _, _ => .error e
-  | (i, v, none) :: rest, vals => waitAll rest (vals.set i v)
+  | (_, ⟨_, some e⟩) :: _, _ => .error e
+  | (i, ⟨v, none⟩) :: rest, vals => waitAll rest (vals.set i v)
 
 /-- `doCacheMGet` after the classification. `exec` is what the MULTI…EXEC round trip of the rewritten
     command yielded: the error the function returns (`ErrDoCacheAborted`, the pre-error, a transport
     error) or `exec[last].values()`. `ord` is the iteration order of the `entries.e` map. -/
-def doCacheMGet (cls : List MCls) (ord : List (Nat × Option Msg × Option Err))
+def doCacheMGet (cls : List Cls) (ord : List (Nat × Res))
     (exec : Except Err (List (Option Msg))) : Except Err (List (Option Msg)) :=
-  let nmiss := (cls.filter MCls.isMiss).length
+  let nmiss := (cls.filter Cls.isMiss).length
   if nmiss = 0 then
     waitAll ord (cls.map mBase)                        -- no round trip; `partial` is nil
   else match exec with
@@ -163,78 +197,30 @@ def doCacheMGet (cls : List MCls) (ord : List (Nat × Option Msg × Option Err))
       if nmiss = cls.length then .ok part              -- "all cache misses": the reply as it is
       else (waitAll ord (cls.map mBase)).map fun vals => refill Option.isNone vals part
 
-/-! ## the cache as one batch sees it -/
-
-/-- state of one cache key at `now` (an expired entry counts as `absent`) -/
-inductive Ent
-  | cached (v : Msg)
-  | inflight (v : Option Msg) (err : Option Err)   -- what the flight will resolve to
-  | absent
-deriving DecidableEq, Repr
-
-/-- Sequential `Flight` over the keys of one batch (also the net effect of `Flights`: the second pass
-    re-examines the missed positions in order under the write lock).  `closed`: `c.store == nil`,
-    every lookup is told to send and nothing is recorded.  `own k` is what the flight created by THIS
-    batch for `k` resolves to. -/
-def classify {K : Type} [DecidableEq K] (closed : Bool) (own : K → Option Msg × Option Err) :
-    (K → Ent) → List K → List MCls
-  | _, [] => []
-  | st, k :: ks =>
-    if closed then .miss :: classify closed own st ks else
-    match st k with
-    | .cached v => .hit v :: classify closed own st ks
-    | .inflight v e => .pending v e :: classify closed own st ks
-    | .absent => .miss :: classify closed own (fun k' => if k' = k then .inflight (own k).1 (own k).2 else st k') ks
-
-/-- the keys of the rewritten command, in order -/
-def missKeys {K : Type} [DecidableEq K] (closed : Bool) : (K → Ent) → List K → List K
-  | _, [] => []
-  | st, k :: ks =>
-    if closed then k :: missKeys closed st ks else
-    match st k with
-    | .absent => k :: missKeys closed (fun k' => if k' = k then .inflight none none else st k') ks
-    | _ => missKeys closed st ks
-
 /-- pipe.go `_backgroundRead`, MGET branch: `for i, cp := range msgs { ck := MGetCacheKey(cacheable, i); Update(ck, cc, cp) }`
     pairs the i-th key of the rewritten command with the i-th element of the reply; on an error
     `doCacheMGet` cancels every rewritten key with it. -/
-def mgetOwn {K : Type} [DecidableEq K] (rw : List K) (exec : Except Err (List (Option Msg))) (k : K) :
-    Option Msg × Option Err :=
+def mgetOwn {K : Type} [DecidableEq K] (rw : List K) (exec : Except Err (List (Option Msg))) (k : K) : Res :=
   match exec with
-  | .error e => (none, some e)
+  | .error e => ⟨none, some e⟩
   | .ok part => match (rw.zip part).lookup k with
-    | some v => (v, none)
-    | none => (none, none)     -- not resolved by this reply (only when the reply is too short)
+    | some v => ⟨v, none⟩
+    | none => ⟨none, none⟩     -- not resolved by this reply (only when the reply is too short)
 
 /-- `DoCache` on an `MGET`: classification, rewritten keys, round trip, assembly -/
 def mgetRun {K : Type} [DecidableEq K] (closed : Bool) (st : K → Ent) (ks : List K)
     (srv : List K → Except Err (List (Option Msg))) : List K × Except Err (List (Option Msg)) :=
-  let rw := missKeys closed st ks
+  let rw := missKeys closed st [] ks
   let exec := srv rw
-  let cls := classify closed (mgetOwn rw exec) st ks
-  (rw, doCacheMGet cls (mEntries cls) exec)
+  let cls := classify closed (mgetOwn rw exec) st [] ks
+  (rw, doCacheMGet cls (entries cls) exec)
 
 /-! ## `DoMultiCache` -/
-
-inductive Cls
-  | hit (v : Msg)
-  | pending (w : Res)     -- `NewResult(entry.Wait(ctx))`
-  | miss
-deriving DecidableEq, Repr
-
-def Cls.isMiss : Cls → Bool
-  | .miss => true
-  | _ => false
 
 /-- `results.s` before the waits -/
 def base0 : Cls → Res
   | .hit v => .ofMsg v
   | _ => .empty
-
-def entries (cls : List Cls) : List (Nat × Res) :=
-  (enum cls).filterMap fun
-    | (i, .pending w) => some (i, w)
-    | _ => none
 
 /-- `for i := 4; i < len(resp.s); i += 5` reading `resp.s[i-1]` and `resp.s[i]` -/
 def pick5 {α : Type} : List α → List (α × α)
@@ -286,21 +272,13 @@ deriving DecidableEq, Repr
 def missing {C : Type} (skip : Bool) (missed : List C) : List (Wire C) :=
   missed.flatMap fun c => if skip then [.optin, .cmd c] else [.optin, .multi, .pttl c, .cmd c, .exec]
 
-def classifyC {C : Type} [DecidableEq C] (closed : Bool) (own : C → Res) : (C → Ent) → List C → List Cls
-  | _, [] => []
-  | st, c :: cs =>
-    if closed then .miss :: classifyC closed own st cs else
-    match st c with
-    | .cached v => .hit v :: classifyC closed own st cs
-    | .inflight v e => .pending ⟨v, e⟩ :: classifyC closed own st cs
-    | .absent => .miss :: classifyC closed own (fun c' => if c' = c then .inflight (own c).val (own c).err else st c') cs
-
-/-- `DoMultiCache` on commands: `serve` answers the wire commands one result per command -/
+/-- `DoMultiCache` on commands: `serve` answers the wire commands, one result per command; `own c` is
+    what the flight of `c` created by this batch resolves to (Update by the reader / Cancel by the walk) -/
 def multiRun {C : Type} [DecidableEq C] (closed : Bool) (skip : Bool) (st : C → Ent) (cs : List C)
     (own : C → Res) (serve : List (Wire C) → List Res) : List (Wire C) × Option (List Res) :=
-  let missed := missKeys closed st cs
+  let missed := missKeys closed st [] cs
   let wire := missing skip missed
-  let cls := classifyC closed own st cs
+  let cls := classify closed own st [] cs
   (wire, doMultiCache cls skip (entries cls) (serve wire))
 
 /-! ## per-destination batching (mux.go `DoMultiCache`, cluster.go `_pickMultiCache` / `resultcachefn`) -/
@@ -340,3 +318,31 @@ def batched {D C R : Type} [DecidableEq D] (empty : R) (dest : List D) (cmds : L
     else scatterAll dest cmds run order (List.replicate cmds.length empty)
 
 end Rv.MGetCache
+
+/-! ## specification (what C11 demands; used by the theorems and by the `!` lines of the driver) -/
+namespace Rv.MGetCache.Spec
+open Rv.MGetCache
+
+/-- classification level: the k-th missing position receives the k-th reply, every other position
+    keeps its cache value -/
+def spec : List Cls → List Res → List Res
+  | [], _ => []
+  | .miss :: cs, [] => .empty :: spec cs []
+  | .miss :: cs, p :: part => p :: spec cs part
+  | .hit v :: cs, part => .ofMsg v :: spec cs part
+  | .pending w :: cs, part => w :: spec cs part
+
+/-- key level: the outcome for key / command `k` as this batch must report it — the cached reply, the
+    outcome of the flight already under way, or the server's answer `out k` to this batch -/
+def expected {K : Type} (closed : Bool) (st : K → Ent) (out : K → Res) (k : K) : Res :=
+  if closed then out k else
+  match st k with
+  | .cached v => .ofMsg v
+  | .inflight w => w
+  | .absent => out k
+
+/-- per-destination batching: position `i` holds what its destination answered for command `i` -/
+def batchedSpec {D C R : Type} (dest : List D) (cmds : List C) (g : D → C → R) : List R :=
+  List.zipWith g dest cmds
+
+end Rv.MGetCache.Spec
